@@ -83,7 +83,8 @@ def detect(prop, which, checks):
     tier = os.environ.get('TIER', 'quick')
     try:
         for cid in checks:
-            p = sh('cd {} && ./check {} {}'.format(HERE, cid, tier), timeout=7200)
+            vdir = os.environ.get('VERIF_DIR', HERE)
+            p = sh('cd {0} && SPOWTD_VERIF_HOME={0} ./check {1} {2}'.format(vdir, cid, tier), timeout=7200)
             keys = [ln.split('key=')[1].split(' ')[0] for ln in p.stdout.splitlines() if ln.strip().startswith('key=')]
             out[cid] = {'verdict': {0: 'held', 1: 'VIOLATION', 2: 'inconclusive'}.get(p.returncode, str(p.returncode)),
                         'keys': keys[:5], 'tier': tier}
@@ -136,7 +137,7 @@ def main():
     elif cmd == 'detect':
         checks = sys.argv[4:] or [prop]
         r = detect(prop, which, checks)
-        entry.setdefault('detect', {}).update(r)
+        entry.setdefault('detect_pre' if os.environ.get('VERIF_DIR') else 'detect', {}).update(r)
         print(key, json.dumps(r))
     elif cmd == 'keep':
         print(keep(prop, which, entry))
